@@ -52,6 +52,12 @@ def gen(streams, tier, i):
     if klass == "neutral":
         lines = [ln for ln in lines if ln.split("\t")[0] in ("H", "#") and "VN:Z" not in ln] or ["# only a comment"]
         expect = "either"
+        if cfg.random() < 0.35:
+            # the rGFA dialect is GFA1 only: a document without deciding content is a gfa1 one there
+            lines = [ln for ln in lines if ln.startswith("#")] or ["# only a comment"]
+            dialect = "rgfa"
+            expect = "gfa1"
+            klass = "neutral_rgfa"
     elif klass == "mixed_content":
         other = OTHER1 if version == "gfa1" else OTHER2
         for o in dr.sample(other, dr.randint(1, 2)):
